@@ -7,8 +7,9 @@ from .. import repo, strategies as S
 from ..core import SubCheck, Fail, Discard, metric, target
 
 RULE = ("Hypothesis strategies over (lat, lon, h, ellipsoid, angle notation) and over Cartesian points in all "
-        "octants; non-trivial = |lat| > 1e-6 deg or an ellipsoid other than GRS80 (the lat == 0 branch on another "
-        "ellipsoid is counted in class 'equator x non-grs80')")
+        "octants incl. points exactly in the coordinate planes through the axis and down to 1e-12 m from it; floats, ints (all three "
+        "whole), numpy float64, mixed angle classes, default ellipsoid / keyword forms; non-trivial = |lat| > 1e-6 deg or an "
+        "ellipsoid other than GRS80 (the lat == 0 branch on another ellipsoid is counted in class 'equator x non-grs80')")
 ASSUMPTIONS = ["closed form: nu = a / sqrt(1 - e^2 sin^2 lat), e^2 = f (2 - f), evaluated in double precision "
                "(error < 1e-8 m at these magnitudes)",
                "ellipsoids with 1/f >= 150 (the quantifier of C01..C05; the fixed 1e-10 rad stopping rule of the "
